@@ -8,7 +8,8 @@ RULE = ("requests are enumerated (workload, range, closest-index: exhaustive gri
         "distinct (op, shape-class) key: op, sizes, remainder class, orientation, tie/below/above class")
 CORR_ONLY = ["Log_Space (exp/log): decided by the oracle on the implementation's output only",
              "Standard_Deviation = sqrt(Variance): compared against the model's variance through a square"]
-ASSUMPTIONS = ["std::upper_bound / std::nth_element / std::is_sorted behave as specified by the C++ standard"]
+ASSUMPTIONS = ["std::upper_bound / std::nth_element / std::is_sorted behave as specified by the C++ standard",
+               "std::sort / std::count with the DataPoint operators: sorted permutation / number of ==-equal elements (the order of points with equal values is unspecified and not compared)"]
 TRUSTED = []
 
 
@@ -165,6 +166,19 @@ def generate(tier, seed, ctx):
         if g % 2 == 0:
             R.append("c19.mean %s" % lst(x)); ctx["groups"][len(R) - 1] = (g, "wavg", "mean", c, s, n)
             R.append("c19.variance %s" % lst(x)); ctx["groups"][len(R) - 1] = (g, "wavg", "var", c, s, n)
+    # --- DataPoint ordering operators and their use by std::sort / std::count (coverage extension) -----------------
+    rng2 = random.Random(seed * 15485863 + 1919)
+    for k in range(300 if thorough else 100):
+        v1 = dyadic(rng2, -8, 8, 2) if k % 2 else mixed_magnitude(rng2, -5, 5)
+        c = k % 4
+        v2 = v1 if c == 0 else (math.nextafter(v1, math.inf) if c == 1 else (dyadic(rng2, -8, 8, 2) if c == 2 else -v1))
+        w1, w2 = rng2.choice([0.5, 1.0, 2.0, 3.0]), rng2.choice([0.5, 1.0, 2.0, 3.0])
+        R.append("c19.dpcmp %s %s %s %s" % (hx(v1), hx(w1), hx(v2), hx(w2)))
+    for k in range(120 if thorough else 40):
+        n = rng2.choice([0, 1, 2, 3]) if k % 5 == 0 else rng2.randint(2, 60)
+        pool = [dyadic(rng2, -8, 8, 2) for _ in range(max(1, n // 2))] if k % 2 else None     # many ties
+        d = [(rng2.choice(pool) if pool else rng2.uniform(-100, 100), rng2.choice([0.5, 1.0, 2.0, 3.0])) for _ in range(n)]
+        R.append("c19.dpsort %d %s" % (n, " ".join(hx(v) + " " + hx(w) for v, w in d)))
     ctx["index"] = {}
     ctx["results"] = {}
     ctx["reqs"] = R
@@ -263,6 +277,34 @@ def compare(rq, impl, model, ctx):
     elif op in ("c19.listseq", "c19.contains", "c19.combine", "c19.findidx", "c19.flatten", "c19.transpose", "c19.sublist"):
         if _ints(ti) != _ints(tm):
             out.append(fail("prop", op[4:] + ": differs from its element-wise definition", ""))
+    elif op == "c19.dpcmp":
+        v1, v2 = fl(a[0]), fl(a[2])
+        bi, bm = [int(t) for t in ti], [int(t) for t in tm]
+        want = [int(v1 < v2), int(v1 > v2), int(v1 == v2)]
+        if bi != want:
+            out.append(fail("prop", "DataPoint <, >, == do not compare the values (and only the values)",
+                            "(%r,%r) vs (%r,%r): <,>,== = %s" % (v1, fl(a[1]), v2, fl(a[3]), bi)))
+        elif bi != bm:
+            out.append(fail("corr", "DataPoint comparison differs from the model", "%s vs %s" % (bi, bm)))
+    elif op == "c19.dpsort":
+        n = int(a[0])
+        d = [(fl(a[1 + 2 * i]), fl(a[2 + 2 * i])) for i in range(n)]
+        vi = [fl(t) for t in ti[1:1 + 4 * n]]
+        asc = list(zip(vi[0:2 * n:2], vi[1:2 * n:2]))
+        desc = list(zip(vi[2 * n::2], vi[2 * n + 1::2]))
+        cnt = int(ti[1 + 4 * n])
+        m_asc = [fr(t) for t in tm[1:1 + n]]
+        m_desc = [fr(t) for t in tm[1 + n:1 + 2 * n]]
+        if sorted(asc) != sorted(d) or sorted(desc) != sorted(d):
+            out.append(fail("prop", "std::sort of DataPoints with the library's operators is not a permutation of the data", ""))
+        elif [v for v, _ in asc] != sorted(v for v, _ in d) or [v for v, _ in desc] != sorted((v for v, _ in d), reverse=True):
+            out.append(fail("prop", "std::sort of DataPoints with operator< / operator> does not order by value", ""))
+        elif [Fraction(v) for v, _ in asc] != m_asc or [Fraction(v) for v, _ in desc] != m_desc:
+            out.append(fail("corr", "sorted values differ from the model", ""))
+        if cnt != (sum(1 for v, _ in d if v == d[0][0]) if n else 0):
+            out.append(fail("prop", "std::count with DataPoint operator== does not count the equal values (weights ignored)", "%d" % cnt))
+        elif cnt != int(tm[1 + 2 * n]):
+            out.append(fail("corr", "count differs from the model", ""))
     elif op in ("c19.mean", "c19.variance", "c19.median"):
         x = [Fraction(fl(t)) for t in a[1:]]
         n = len(x)
@@ -305,6 +347,10 @@ def _key(op, a, model):
         return (op, int(a[0]), model)
     if op == "c19.sublist":
         return (op, a[0], a[-2], a[-1])
+    if op == "c19.dpcmp":
+        return (op, model)
+    if op == "c19.dpsort":
+        return (op, min(int(a[0]), 8), len(set(a[1::2])) < int(a[0]))
     return (op, a[0] if a else "", tag(model), len(a) // 8)
 
 
